@@ -37,15 +37,15 @@ def replay_conv(rec, ctx, np):
     tol = 1e-9 * (np.abs(a).sum() * np.abs(b).sum() + 1)
     try:
         g = conv(a, b)
-        if g.shape != shape or np.abs(g - ab).max() > tol:
+        if g.shape != shape or core.maxabs(g - ab) > tol:
             fails.append(('value', 'conv(a, b) = %s want %s' % (np.round(g, 6).tolist(), ab.tolist())))
         gd = conv(a, delta)
-        if np.abs(gd - ad).max() > tol:
+        if core.maxabs(gd - ad) > tol:
             at_origin = (q[0] - 1 == shape[0] // 2 and q[1] - 1 == shape[1] // 2)
             fails.append(('impulse-identity' if at_origin else 'impulse-translation', 'impulse at %s: got %s want %s' % (q, np.round(gd, 6).tolist(), ad.tolist())))
-        if np.abs(conv(b, a) - g).max() > tol:
+        if core.maxabs(conv(b, a) - g) > tol:
             fails.append(('commutative', 'conv(b, a) != conv(a, b)'))
-        if np.abs(conv(a, b + c) - (g + conv(a, c))).max() > tol or np.abs(conv(3 * a, b) - 3 * g).max() > tol:
+        if core.maxabs(conv(a, b + c) - (g + conv(a, c))) > tol or core.maxabs(conv(3 * a, b) - 3 * g) > tol:
             fails.append(('linear', 'not linear'))
         if abs(g.sum() - a.sum() * b.sum()) > tol:
             fails.append(('total', 'sum %r, product of sums %r' % (float(g.sum()), float(a.sum() * b.sum()))))
@@ -119,7 +119,7 @@ def replay_tf(rec, ctx, np):
             concrete = [value(tf, fx, fy) if isinstance(tf, str) else tf for tf in tfs]
             try:
                 got = apply_transfer_functions(obj.copy(), dx, concrete, shift=(conv_ == 'shifted'))
-                if got.shape != shape or np.abs(got - want).max() > tol:
+                if got.shape != shape or core.maxabs(got - want) > tol:
                     kind = 'identity' if name in ('empty', 'ones') else 'value'
                     fails.append(('%s:%s:%s' % (kind, conv_, 'callable' if any(callable(t) for t in tfs) else 'array'),
                                   'tfs=%s: got %s want %s' % (name, np.round(got, 5).tolist(), np.round(want, 5).tolist())))
@@ -128,7 +128,7 @@ def replay_tf(rec, ctx, np):
                     for tf in tfs:
                         single = single * value(tf, fx, fy)
                     one = apply_transfer_functions(obj.copy(), dx, [single], shift=(conv_ == 'shifted'))
-                    if np.abs(one - got).max() > tol:
+                    if core.maxabs(one - got) > tol:
                         fails.append(('list-vs-product:%s' % conv_, 'tfs=%s: applying the list differs from applying the product' % name))
             except Exception as ex:
                 fails.append(('raised:%s' % conv_, 'tfs=%s: %s: %s' % (name, type(ex).__name__, ex)))
@@ -150,7 +150,7 @@ def replay_otf(rec, ctx, np):
         m = otf.mtf_from_psf(psf.copy(), 1.0).data
         o = otf.otf_from_psf(psf.copy(), 1.0).data
         p = otf.ptf_from_psf(psf.copy(), 1.0).data
-        if m.shape != shape or np.abs(m ** 2 - want2).max() > 1e-10:
+        if m.shape != shape or core.maxabs(m ** 2 - want2) > 1e-10:
             fails.append(('value', 'MTF^2 = %s want %s' % (np.round(m ** 2, 8).tolist(), np.round(want2, 8).tolist())))
         if abs(m[cy, cx] - 1) > 1e-12:
             fails.append(('dc', 'MTF at zero frequency (sample n//2) is %r' % float(m[cy, cx])))
@@ -167,7 +167,7 @@ def replay_otf(rec, ctx, np):
             else:
                 continue
             break
-        if np.abs(o - m * np.exp(1j * p)).max() > 1e-10:
+        if core.maxabs(o - m * np.exp(1j * p)) > 1e-10:
             fails.append(('consistency', 'OTF != MTF * exp(i PTF)'))
     except Exception as ex:
         fails.append(('raised', '%s: %s' % (type(ex).__name__, ex)))
